@@ -120,3 +120,265 @@ Section JudgeFacts.
     specialize (HT _ _ J). destruct (parse_payload _ _); [reflexivity|congruence].
   Qed.
 End JudgeFacts.
+
+(* ---- generic: scanning with pointwise equal judges ------------------------------------------------ *)
+Lemma scan_aux_ext {B} (j1 j2 : list B -> verdict) : (forall l, j1 l = j2 l) ->
+  forall f off l, scan_aux j1 f off l = scan_aux j2 f off l.
+Proof.
+  intros H. induction f as [|f IH]; intros off l; [reflexivity|].
+  cbn [scan_aux]. rewrite H. destruct (j2 l); [rewrite IH|apply IH|]; reflexivity.
+Qed.
+
+Lemma scan_ext {B} (j1 j2 : list B -> verdict) : (forall l, j1 l = j2 l) -> forall off l, scan j1 off l = scan j2 off l.
+Proof. intros H off l. apply scan_aux_ext. exact H. Qed.
+
+Lemma feed_all_ext {B} (j1 j2 : list B -> verdict) : (forall l, j1 l = j2 l) ->
+  forall cs st, feed_all j1 st cs = feed_all j2 st cs.
+Proof.
+  intros H. induction cs as [|c cs IH]; intros st; [reflexivity|].
+  cbn [feed_all]. unfold feed. rewrite (scan_ext _ _ H). destruct (scan j2 (fst st) (snd st ++ c)) as [fs st1].
+  rewrite IH. reflexivity.
+Qed.
+
+(* ---- header field facts ------------------------------------------------------------------------------ *)
+Lemma parse_header_sync (b0 b1 : N) (t : list N) :
+  h_sync0 (parse_header (firstn HEADER_SIZE (b0 :: b1 :: t))) = b0 /\
+  h_sync1 (parse_header (firstn HEADER_SIZE (b0 :: b1 :: t))) = b1.
+Proof.
+  unfold HEADER_SIZE, parse_header, sub. cbn [firstn skipn h_sync0 h_sync1 le].
+  rewrite !N.mul_0_r, !N.add_0_r. split; reflexivity.
+Qed.
+
+Section Refine.
+  Context {P : Type}.
+  Variable parse_payload : N -> list N -> option P.
+  Variable maxp maxe : N.
+  Variable rb ro : bool.
+
+  Notation judge := (PyDecoder_judge maxp maxe).
+  Notation J := (PyDecoder_judge_dec parse_payload maxp maxe).
+  Notation step := (PyDecoder_step parse_payload maxp maxe rb ro false).
+  Notation complete := (PyDecoder_complete parse_payload maxe rb ro false).
+  Notation loop := (PyDecoder_loop parse_payload maxp maxe rb ro false).
+  Notation on_data := (PyDecoder_on_data parse_payload maxp maxe rb ro false).
+  Notation run := (PyDecoder_run parse_payload maxp maxe rb ro false).
+  Notation res_of := (PyDecoder_result_of parse_payload rb ro).
+  Notation state := PyDecoder_state.
+  Notation abs := PyDecoder_abs.
+
+  (* what a cached header is known to satisfy *)
+  Definition hdr_facts (b : list N) (ml : N) (h : header) : Prop :=
+    (HEADER_SIZE <= length b)%nat /\ h = parse_header (firstn HEADER_SIZE b) /\
+    h_sync0 h = SYNC0 /\ h_sync1 h = SYNC1 /\ h_reserved h = 0%N /\ (h_psize h <= maxp)%N /\
+    ml = (h_psize h + N.of_nat HEADER_SIZE)%N.
+
+  Definition PyDecoder_Inv (st : state) : Prop :=
+    match pd_hdr st with None => True | Some h => hdr_facts (pd_buf st) (pd_msg_len st) h end.
+
+  (* the state between calls *)
+  Definition PyDecoder_Post (st : state) : Prop :=
+    PyDecoder_Inv st /\ J (pd_buf st) = More /\ (pd_hdr st = None <-> (length (pd_buf st) < HEADER_SIZE)%nat).
+
+  Lemma Post_init : PyDecoder_Post PyDecoder_init.
+  Proof. unfold PyDecoder_Post, PyDecoder_Inv, PyDecoder_init, HEADER_SIZE. cbn. repeat split; auto; lia. Qed.
+
+  (* the verdict once a plausible header is known *)
+  Lemma judge_with_header b ml h : hdr_facts b ml h ->
+    judge b =
+      if N.ltb (N.of_nat (length b)) ml then More else
+      if N.ltb maxe (h_psize h) then Reject else
+      if N.eqb (crc32 (sub b 8 (HEADER_SIZE + N.to_nat (h_psize h) - 8))) (h_crc h)
+      then Accept (HEADER_SIZE + N.to_nat (h_psize h)) else Reject.
+  Proof.
+    intros (H24 & Hh & S0 & S1 & R0 & Hp & Hml). unfold PyDecoder_judge.
+    assert (E : Nat.ltb (length b) HEADER_SIZE = false) by (apply Nat.ltb_ge; exact H24). rewrite E.
+    rewrite <- Hh. rewrite S0, S1, R0, !N.eqb_refl. cbn [andb negb].
+    assert (E1 : N.ltb maxp (h_psize h) = false) by (apply N.ltb_ge; exact Hp). rewrite E1.
+    rewrite Hml, (N.add_comm (h_psize h)). reflexivity.
+  Qed.
+
+  Definition step_ok (st : state) (r : PyDecoder_step_res (P := P)) : Prop :=
+    match r with
+    | PdBreak st' =>
+        J (pd_buf st) = More /\ pd_buf st' = pd_buf st /\ pd_processed st' = pd_processed st /\
+        PyDecoder_Inv st' /\ (pd_hdr st' = None <-> (length (pd_buf st') < HEADER_SIZE)%nat)
+    | PdContinue st' =>
+        J (pd_buf st) = Reject /\ pd_buf st' = tl (pd_buf st) /\ pd_processed st' = (pd_processed st + 1)%N /\
+        pd_hdr st' = None
+    | PdEmit r st' =>
+        exists n, J (pd_buf st) = Accept n /\ pd_buf st' = skipn n (pd_buf st) /\
+                  pd_processed st' = (pd_processed st + N.of_nat n)%N /\ pd_hdr st' = None /\
+                  res_of (N.to_nat (pd_processed st), firstn n (pd_buf st)) = Some r
+    | PdRaise => False
+    end.
+
+  Lemma complete_ok st h :
+    pd_hdr st = Some h -> hdr_facts (pd_buf st) (pd_msg_len st) h -> step_ok st (complete st h).
+  Proof.
+    intros Hh HF. pose proof (judge_with_header _ _ _ HF) as HJ.
+    destruct HF as (H24 & Hhp & S0 & S1 & R0 & Hp & Hml).
+    unfold PyDecoder_complete.
+    destruct (N.ltb (N.of_nat (length (pd_buf st))) (pd_msg_len st)) eqn:E1.
+    { cbn [step_ok]. unfold PyDecoder_judge_dec. rewrite HJ. repeat split; try reflexivity.
+      - unfold PyDecoder_Inv. rewrite Hh. repeat split; assumption.
+      - rewrite Hh. discriminate.
+      - intros Hl. lia. }
+    apply N.ltb_ge in E1.
+    unfold PyDecoder_validate_crc.
+    destruct (N.ltb maxe (h_psize h)) eqn:E2.
+    { cbn [negb step_ok PyDecoder_pop pd_buf pd_processed pd_hdr]. unfold PyDecoder_judge_dec. rewrite HJ.
+      repeat split; reflexivity. }
+    destruct (N.eqb (crc32 (sub (pd_buf st) 8 (HEADER_SIZE + N.to_nat (h_psize h) - 8))) (h_crc h)) eqn:E3.
+    2:{ cbn [negb step_ok PyDecoder_pop pd_buf pd_processed pd_hdr]. unfold PyDecoder_judge_dec. rewrite HJ.
+        repeat split; reflexivity. }
+    cbn [negb pd_buf pd_msg_len pd_processed pd_hdr pd_last_seq].
+    assert (Hn : N.to_nat (pd_msg_len st) = (HEADER_SIZE + N.to_nat (h_psize h))%nat) by (rewrite Hml; lia).
+    rewrite Hn. set (n := (HEADER_SIZE + N.to_nat (h_psize h))%nat) in *.
+    assert (HJd : J (pd_buf st) =
+                  match parse_payload (h_type h) (sub (pd_buf st) HEADER_SIZE (n - HEADER_SIZE)) with
+                  | Some _ => Accept n | None => Reject end).
+    { unfold PyDecoder_judge_dec. rewrite HJ. rewrite <- Hhp. reflexivity. }
+    destruct (parse_payload (h_type h) (sub (pd_buf st) HEADER_SIZE (n - HEADER_SIZE))) as [c|] eqn:EP.
+    2:{ cbn [step_ok PyDecoder_pop pd_buf pd_processed pd_hdr]. rewrite HJd. repeat split; reflexivity. }
+    cbn [step_ok pd_buf pd_processed pd_hdr]. exists n. rewrite HJd.
+    assert (Hlen : (n <= length (pd_buf st))%nat) by lia.
+    assert (Hn24 : (HEADER_SIZE <= n)%nat) by (subst n; lia).
+    repeat split; try reflexivity.
+    - rewrite Hml. lia.
+    - unfold PyDecoder_result_of.
+      rewrite firstn_firstn, Nat.min_l by exact Hn24. rewrite <- Hhp.
+      assert (Hsk : skipn HEADER_SIZE (firstn n (pd_buf st)) = sub (pd_buf st) HEADER_SIZE (n - HEADER_SIZE)).
+      { unfold sub. rewrite skipn_firstn_comm. reflexivity. }
+      rewrite Hsk, EP. rewrite N2Nat.id. reflexivity.
+  Qed.
+
+  Lemma step_ok_step st : PyDecoder_Inv st -> pd_buf st <> [] -> step_ok st (step st).
+  Proof.
+    intros HI Hne. unfold PyDecoder_step.
+    destruct (Nat.ltb (length (pd_buf st)) HEADER_SIZE) eqn:E0.
+    { apply Nat.ltb_lt in E0. cbn [step_ok]. repeat split; try reflexivity; try assumption.
+      - unfold PyDecoder_judge_dec, PyDecoder_judge.
+        assert (E : Nat.ltb (length (pd_buf st)) HEADER_SIZE = true) by (apply Nat.ltb_lt; exact E0). rewrite E. reflexivity.
+      - intros _. exact E0.
+      - intros _. unfold PyDecoder_Inv in HI. destruct (pd_hdr st) as [h|]; [|reflexivity].
+        destruct HI as (H24 & _). lia. }
+    apply Nat.ltb_ge in E0.
+    destruct (pd_hdr st) as [h|] eqn:Hh.
+    { apply complete_ok; [exact Hh|]. unfold PyDecoder_Inv in HI. rewrite Hh in HI. exact HI. }
+    destruct (pd_buf st) as [|b0 [|b1 t]] eqn:Hb; [congruence| cbn [length] in E0; unfold HEADER_SIZE in E0; lia |].
+    pose proof (parse_header_sync b0 b1 t) as [HS0 HS1].
+    assert (Hnl : Nat.ltb (length (b0 :: b1 :: t)) HEADER_SIZE = false) by (apply Nat.ltb_ge; exact E0).
+    destruct (negb (N.eqb b0 SYNC0)) eqn:ES0.
+    { cbn [step_ok PyDecoder_pop pd_buf pd_processed pd_hdr]. rewrite Hb.
+      unfold PyDecoder_judge_dec, PyDecoder_judge. rewrite Hnl, HS0, HS1.
+      apply negb_true_iff in ES0. rewrite ES0. cbn [andb negb]. repeat split; reflexivity. }
+    destruct (negb (N.eqb b1 SYNC1)) eqn:ES1.
+    { cbn [step_ok PyDecoder_pop pd_buf pd_processed pd_hdr]. rewrite Hb.
+      unfold PyDecoder_judge_dec, PyDecoder_judge. rewrite Hnl, HS0, HS1.
+      apply negb_true_iff in ES1. rewrite ES1, andb_false_r. cbn [negb]. repeat split; reflexivity. }
+    apply negb_false_iff, N.eqb_eq in ES0, ES1.
+    set (h := parse_header (firstn HEADER_SIZE (b0 :: b1 :: t))) in *.
+    destruct (negb (N.eqb (h_reserved h) 0)) eqn:ER.
+    { cbn [step_ok PyDecoder_pop pd_buf pd_processed pd_hdr]. rewrite Hb.
+      unfold PyDecoder_judge_dec, PyDecoder_judge. rewrite Hnl. fold h. rewrite HS0, HS1, ES0, ES1, !N.eqb_refl.
+      cbn [andb negb]. rewrite ER. repeat split; reflexivity. }
+    destruct (N.ltb maxp (h_psize h)) eqn:EM.
+    { cbn [step_ok PyDecoder_pop pd_buf pd_processed pd_hdr]. rewrite Hb.
+      unfold PyDecoder_judge_dec, PyDecoder_judge. rewrite Hnl. fold h. rewrite HS0, HS1, ES0, ES1, !N.eqb_refl.
+      cbn [andb negb]. rewrite ER, EM. repeat split; reflexivity. }
+    apply negb_false_iff, N.eqb_eq in ER. apply N.ltb_ge in EM.
+    set (st1 := {| pd_buf := b0 :: b1 :: t; pd_hdr := Some h; pd_msg_len := (h_psize h + N.of_nat HEADER_SIZE)%N;
+                   pd_processed := pd_processed st; pd_last_seq := pd_last_seq st |}).
+    assert (HF : hdr_facts (pd_buf st1) (pd_msg_len st1) h).
+    { subst st1. cbn [pd_buf pd_msg_len]. unfold hdr_facts. repeat split; try assumption; try reflexivity.
+      - rewrite <- ES0. exact HS0.
+      - rewrite <- ES1. exact HS1. }
+    pose proof (complete_ok st1 h eq_refl HF) as HC.
+    destruct (complete st1 h) as [s'|s'|r s'|]; cbn [step_ok] in *; subst st1; cbn [pd_buf pd_processed] in *;
+      rewrite ?Hb; exact HC.
+  Qed.
+
+  Hypothesis OKJ : JudgeOK J.
+
+  Lemma loop_refines : forall fuel st,
+    PyDecoder_Inv st -> (length (pd_buf st) < fuel)%nat ->
+    exists rs st' fs,
+      loop fuel st = PdDone rs st' /\ PyDecoder_Post st' /\
+      scan_aux J fuel (N.to_nat (pd_processed st)) (pd_buf st) = (fs, abs st') /\
+      map Some rs = map res_of fs.
+  Proof.
+    induction fuel as [|f IH]; intros st HI Hf; [lia|].
+    cbn [PyDecoder_loop]. rewrite scan_aux_unfold.
+    destruct (pd_buf st) as [|b0 t] eqn:Hb.
+    { exists [], st, []. rewrite (j_nil _ OKJ). unfold PyDecoder_abs. rewrite Hb. repeat split; try reflexivity.
+      - exact HI.
+      - rewrite Hb. apply (j_nil _ OKJ).
+      - intros _. rewrite Hb. unfold HEADER_SIZE. cbn. lia.
+      - intros _. unfold PyDecoder_Inv in HI. destruct (pd_hdr st) as [h|]; [|reflexivity].
+        destruct HI as (H24 & _). rewrite Hb in H24. unfold HEADER_SIZE in H24. cbn in H24. lia. }
+    assert (Hne : pd_buf st <> []) by (rewrite Hb; discriminate).
+    assert (Hlen : (length (pd_buf st) < S f)%nat) by (rewrite Hb; exact Hf).
+    pose proof (step_ok_step st HI Hne) as HS. rewrite <- Hb.
+    destruct (step st) as [s'|s'|r s'|]; cbn [step_ok] in HS.
+    - destruct HS as (HJ & Hbuf & Hpr & HI' & Hiff). rewrite HJ.
+      exists [], s', []. unfold PyDecoder_abs. rewrite Hbuf, Hpr. repeat split; try reflexivity; try assumption.
+      + rewrite Hbuf. exact HJ.
+      + apply Hiff.
+      + apply Hiff.
+    - destruct HS as (HJ & Hbuf & Hpr & Hh). rewrite HJ.
+      assert (HI' : PyDecoder_Inv s') by (unfold PyDecoder_Inv; rewrite Hh; exact I).
+      assert (Hf' : (length (pd_buf s') < f)%nat) by (rewrite Hbuf, Hb in *; cbn [tl length] in *; lia).
+      destruct (IH s' HI' Hf') as (rs & st' & fs & HL & HP & HSc & HM).
+      exists rs, st', fs. rewrite HL. refine (conj eq_refl (conj HP (conj _ HM))).
+      rewrite <- Hbuf. replace (S (N.to_nat (pd_processed st))) with (N.to_nat (pd_processed s')) by (rewrite Hpr; lia).
+      exact HSc.
+    - destruct HS as (n & HJ & Hbuf & Hpr & Hh & HR). rewrite HJ.
+      pose proof (j_bound _ OKJ _ _ HJ) as Hn.
+      assert (HI' : PyDecoder_Inv s') by (unfold PyDecoder_Inv; rewrite Hh; exact I).
+      assert (Hf' : (length (pd_buf s') < f)%nat) by (rewrite Hbuf, skipn_length; lia).
+      destruct (IH s' HI' Hf') as (rs & st' & fs & HL & HP & HSc & HM).
+      exists (r :: rs), st', ((N.to_nat (pd_processed st), firstn n (pd_buf st)) :: fs). rewrite HL.
+      refine (conj eq_refl (conj HP (conj _ _))).
+      + rewrite <- Hbuf.
+        replace (N.to_nat (pd_processed st) + n)%nat with (N.to_nat (pd_processed s')) by (rewrite Hpr; lia).
+        rewrite HSc. reflexivity.
+      + cbn [map]. rewrite HR, HM. reflexivity.
+    - destruct HS.
+  Qed.
+
+  Theorem on_data_refines st data :
+    PyDecoder_Post st ->
+    exists rs st' fs,
+      on_data st data = PdDone rs st' /\ PyDecoder_Post st' /\
+      feed J (abs st) data = (fs, abs st') /\ map Some rs = map res_of fs.
+  Proof.
+    intros HP. unfold PyDecoder_on_data. destruct data as [|d0 dt].
+    { exists [], st, []. repeat split; try apply HP.
+      rewrite feed_nil; [reflexivity|]. unfold wf_state, PyDecoder_abs. cbn [snd]. apply HP. }
+    set (data := d0 :: dt).
+    set (st1 := {| pd_buf := pd_buf st ++ data; pd_hdr := pd_hdr st; pd_msg_len := pd_msg_len st;
+                   pd_processed := pd_processed st; pd_last_seq := pd_last_seq st |}).
+    assert (HI1 : PyDecoder_Inv st1).
+    { destruct HP as (HI & _). unfold PyDecoder_Inv in *. subst st1. cbn [pd_hdr pd_buf pd_msg_len].
+      destruct (pd_hdr st) as [h|]; [|exact I].
+      destruct HI as (H24 & Hh & Hrest). unfold hdr_facts. split; [rewrite app_length; lia|].
+      split; [rewrite firstn_app_ge by exact H24; exact Hh | exact Hrest]. }
+    destruct (loop_refines (S (length (pd_buf st1))) st1 HI1 (Nat.lt_succ_diag_r _)) as (rs & st' & fs & HL & HP' & HSc & HM).
+    exists rs, st', fs. refine (conj HL (conj HP' (conj _ HM))). exact HSc.
+  Qed.
+
+  Theorem run_refines : forall chunks st,
+    PyDecoder_Post st ->
+    exists rss st' fs,
+      run st chunks = PdRunDone rss st' /\ PyDecoder_Post st' /\
+      feed_all J (abs st) chunks = (fs, abs st') /\ map Some (concat rss) = map res_of fs.
+  Proof.
+    induction chunks as [|c cs IH]; intros st HP.
+    { exists [], st, []. repeat split; try apply HP. }
+    cbn [PyDecoder_run feed_all].
+    destruct (on_data_refines st c HP) as (rs & st1 & fs1 & HO & HP1 & HF & HM1). rewrite HO, HF.
+    destruct (IH st1 HP1) as (rss & st2 & fs2 & HR & HP2 & HF2 & HM2). rewrite HR, HF2.
+    exists (rs :: rss), st2, (fs1 ++ fs2). refine (conj eq_refl (conj HP2 (conj eq_refl _))).
+    cbn [concat]. rewrite !map_app, HM1, HM2. reflexivity.
+  Qed.
+End Refine.
